@@ -4,6 +4,7 @@ import (
 	"context"
 	"fmt"
 	"os"
+	"path/filepath"
 	"strings"
 	"sync"
 	"sync/atomic"
@@ -111,6 +112,26 @@ func (e *FuncEnc) Verify(scratch string, timeoutS int) *FuncResult {
 	wg.Wait()
 	res.Secs = time.Since(t0).Seconds()
 	return res
+}
+
+// ContextConsistent: everything the encoding assumes along all paths (facts,
+// callee postconditions, havoc frames; no goal) must be satisfiable together.
+// An unsatisfiable context proves every obligation of the function vacuously
+// (seen once: a callee postcondition relating a heap to itself because the
+// caller had not registered that heap before the call). Returns the solver's
+// first line; "unsat" is the alarm.
+func (e *FuncEnc) ContextConsistent(scratch string) string {
+	if len(e.body) == 0 {
+		return "sat"
+	}
+	script := e.prefix(len(e.body)) + "(check-sat)\n"
+	file := filepath.Join(scratch, sanitize(e.Name)+".ctx.smt2")
+	if err := os.WriteFile(file, []byte(script), 0o644); err != nil {
+		return "error"
+	}
+	defer os.Remove(file)
+	r := runOne(context.Background(), solvers[0], file, 8)
+	return r.Status
 }
 
 // CheckVacuity: the assumptions at function entry (requires + axioms) must be
